@@ -27,6 +27,8 @@ import (
 	"sync/atomic"
 	"time"
 
+	"tunnox-core/internal/cloud/models"
+	"tunnox-core/internal/cloud/stats"
 	"tunnox-core/internal/core/idgen"
 	"tunnox-core/internal/core/storage"
 	"tunnox-core/internal/protocol/session"
@@ -276,7 +278,7 @@ func b2s(b bool) string {
 	return "0"
 }
 
-func runBridge(lim string, src, tgt []readEv, sw, tw []writeEv) string {
+func runBridge(lim string, src, tgt []readEv, sw, tw []writeEv, stall bool) string {
 	res := make(chan string, 1)
 	go func() {
 		defer func() {
@@ -294,8 +296,40 @@ func runBridge(lim string, src, tgt []readEv, sw, tw []writeEv) string {
 		sc := newScriptConn("src", src, sw)
 		tc := newScriptConn("tgt", tgt, tw)
 		id := fmt.Sprintf("verif-tunnel-%d", bridgeSeq.Add(1))
-		br := sm.VerifStartBridge(id, "", sc, limitOf(lim))
+		var br *session.TunnelBridge
+		var cc *stallCC
+		if stall {
+			cc = &stallCC{release: make(chan struct{})}
+			br = sm.VerifStartBridgeCC(id, "verif-mapping", sc, limitOf(lim), cc)
+		} else {
+			br = sm.VerifStartBridge(id, "", sc, limitOf(lim))
+		}
 		br.SetTargetConnection(&tconn{c: tc})
+		cds, stalled := "1", "0"
+		if stall {
+			// wait until the final traffic report is inside the (stalled) backend, or the bridge is gone
+			// without a report (no bytes moved)
+			for d := time.Now().Add(20 * time.Second); time.Now().Before(d) && cc.entered.Load() == 0 && sm.VerifHasBridge(id); {
+				time.Sleep(200 * time.Microsecond)
+			}
+			if cc.entered.Load() > 0 {
+				stalled = "1"
+				cds = "0"
+				for d := time.Now().Add(3 * time.Second); time.Now().Before(d); time.Sleep(200 * time.Microsecond) {
+					sc.mu.Lock()
+					a := sc.closed
+					sc.mu.Unlock()
+					tc.mu.Lock()
+					b := tc.closed
+					tc.mu.Unlock()
+					if a && b {
+						cds = "1"
+						break
+					}
+				}
+			}
+			close(cc.release)
+		}
 		deadline := time.Now().Add(20 * time.Second)
 		returned := false
 		for time.Now().Before(deadline) {
@@ -313,6 +347,9 @@ func runBridge(lim string, src, tgt []readEv, sw, tw []writeEv) string {
 			br.GetBytesSent(), br.GetBytesReceived())
 		tc.mu.Unlock()
 		sc.mu.Unlock()
+		if stall {
+			o += " cds " + cds + " stalled " + stalled
+		}
 		res <- o
 	}()
 	select {
@@ -321,6 +358,22 @@ func runBridge(lim string, src, tgt []readEv, sw, tw []writeEv) string {
 	case <-time.After(40 * time.Second):
 		return "timeout"
 	}
+}
+
+// stallCC is a statistics backend that does not answer until released.
+type stallCC struct {
+	entered atomic.Int64
+	release chan struct{}
+}
+
+func (c *stallCC) GetPortMapping(string) (*models.PortMapping, error) {
+	c.entered.Add(1)
+	<-c.release
+	return &models.PortMapping{}, nil
+}
+func (c *stallCC) UpdatePortMappingStats(string, *stats.TrafficStats) error { return nil }
+func (c *stallCC) GetClientPortMappings(int64) ([]*models.PortMapping, error) {
+	return nil, nil
 }
 
 // ---- case strings
@@ -403,12 +456,12 @@ func execCase(out *vc.Out, caseStr string) {
 		out.Case(caseStr, obs, key)
 	case "reattach", "reattachfree":
 		execReattach(out, caseStr, toks)
-	case "bridge":
+	case "bridge", "bridgestall":
 		src, i := parseReads(toks, 3, true)
 		tgt, i := parseReads(toks, i, true)
 		sw, i := parseWrites(toks, i)
 		tw, _ := parseWrites(toks, i)
-		obs := runBridge(toks[2], src, tgt, sw, tw)
+		obs := runBridge(toks[2], src, tgt, sw, tw, toks[0] == "bridgestall")
 		key := caseStr
 		if len(key) > 200 {
 			key = key[:200] + strconv.Itoa(len(caseStr))
@@ -598,7 +651,12 @@ func gen(out *vc.Out, r *vc.Rand, thorough bool) {
 			sw = genWrites(r, out, nt, true)
 			tw = genWrites(r, out, ns, true)
 		}
-		execCase(out, "bridge lim "+lim+" "+fmtReads("src", src, true)+" "+fmtReads("tgt", tgt, true)+" "+fmtWrites("sw", sw)+" "+fmtWrites("tw", tw))
+		kind := "bridge"
+		if r.Intn(6) == 0 { // the statistics backend stalls during the final traffic report
+			kind = "bridgestall"
+			out.Count("bridge:stats-backend-stalled")
+		}
+		execCase(out, kind+" lim "+lim+" "+fmtReads("src", src, true)+" "+fmtReads("tgt", tgt, true)+" "+fmtWrites("sw", sw)+" "+fmtWrites("tw", tw))
 	}
 }
 
